@@ -98,3 +98,11 @@ impl Sym {
         self.q_reg.get_probabilities()
     }
 }
+
+#[cfg(qvnt_verif)]
+impl Sym {
+    /// Verification hook: the raw amplitude buffer of the simulated register.
+    pub fn verif_raw(&self) -> &[crate::math::types::C] {
+        self.q_reg.verif_raw()
+    }
+}
